@@ -68,6 +68,8 @@ CURATED = [
     "Slicing(Array(4, Byte), 4, 1, 3, empty=0)", "Indexing(Array(3, Byte), 3, 1, empty=0)", "Struct('f'/Filter(obj_ != 0, Byte[3]), 't'/Byte)", "Struct('o'/OneOf(Byte, [1, 2, 3]), 'n'/NoneOf(Byte, [0]), 'd'/Bytes(this.o))",
     "Struct('t'/Timestamp(Int32ub, 1, 1970) if False else Computed(1), 'x'/Byte)", "Struct('a'/Byte, 'b'/Rebuild(Byte, this.a ^ 0xFF), Check(this.a + this.b == 255), 'c'/Byte)",
     "Struct('n'/NamedTuple('pt', 'x y', Byte[2]), 'd'/Bytes(this.n.x & 1))", "FocusedSeq('v', 'len'/Rebuild(Byte, len_(this.v)), 'v'/Bytes(this.len & 3), Terminated) if False else FocusedSeq('v', 'len'/Rebuild(Byte, len_(this.v)), 'v'/Bytes(this.len & 3))",
+    "Sequence('a'/Byte, StopIf(this.a == 0), 'b'/Byte)", "Struct('s'/Sequence('a'/Byte, StopIf(this.a & 1), 'b'/Int16ub), 't'/Byte)",
+    "Struct('p'/Peek(Const(b'MZ')), 'a'/Int16ub)", "Struct('p'/Peek(Struct('k'/Byte, Check(this.k == 1))), 'head'/Byte, 'x'/Byte)", "Struct('p'/Peek(OneOf(Byte, [1, 2])), 'q'/Int16ub)",
     # offsets observed inside delimited regions (absolute in the interpreter)
     "Struct('h'/Byte, 'p'/Prefixed(Byte, Struct('a'/Byte, 't'/Tell, 'g'/GreedyBytes)), 'z'/Tell)", "Struct('h'/Byte, 'f'/FixedSized(3, Struct('t'/Tell, 'r'/RawCopy(Byte), 'g'/GreedyBytes)), 'z'/Byte)",
     "Struct('h'/Byte, 'p'/Prefixed(Byte, Prefixed(Byte, Struct('t'/Tell, 'g'/GreedyBytes))))", "Struct('h'/Int16ub, 'p'/Prefixed(Byte, Struct('q'/Pointer(1, Byte), 'g'/GreedyBytes), includelength=True))",
